@@ -528,7 +528,7 @@ fn random_case(rng: &mut Rng, big_ok: bool) -> Case {
                     let o = rng.pick(&TYPES);
                     (o.w, o.h)
                 }
-                1 => (0, 0),                                // 16-byte page
+                1 => [(0u32, 0u32), (0, 7), (9, 0), (0, 16)][rng.usize(4)], // pages without a dot: 16 bytes, one chunk
                 2 => (13 + rng.below(4) as u32, 8),         // one chunk and a bit
                 3 if big_ok && rng.chance(1, 8) => (4092, 8), // 4096 bytes
                 _ => (TYPES[ty].w, TYPES[ty].h),
